@@ -1098,3 +1098,31 @@ impl TcpTransport {
         }
     }
 }
+
+/// Run the real [`TcpConnection::negotiate_connection`] (multistream-select, Noise handshake,
+/// dialed-peer comparison, yamux negotiation) over `stream` and report the authenticated peer
+/// (verification harness only).
+#[cfg(litep2p_verif)]
+pub async fn verif_negotiate_connection(
+    stream: TcpStream,
+    dialed_peer: Option<crate::PeerId>,
+    keypair: crate::crypto::ed25519::Keypair,
+    role: crate::config::Role,
+    address: SocketAddr,
+    timeout: Duration,
+) -> Result<crate::PeerId, crate::error::NegotiationError> {
+    TcpConnection::negotiate_connection(
+        stream,
+        dialed_peer,
+        ConnectionId::from(0usize),
+        keypair,
+        role,
+        crate::transport::common::listener::AddressType::Socket(address),
+        Default::default(),
+        crate::crypto::noise::MAX_READ_AHEAD_FACTOR,
+        crate::crypto::noise::MAX_WRITE_BUFFER_SIZE,
+        timeout,
+    )
+    .await
+    .map(|connection| connection.peer())
+}
